@@ -36,6 +36,23 @@ func (s *Sim) stepExt(op *Op) bool {
 	switch op.Kind {
 	case "tick":
 		s.opTick(op)
+	case "pubrel":
+		sl := s.Slots[op.C]
+		s.clientSend(sl, &rc.Packet{Type: rc.PUBREL, Version: sl.Ver, PacketID: op.PID})
+		what := "PUBCOMP for PUBREL"
+		if _, ok := sl.Sess.InQ2[op.PID]; !ok {
+			what = "PUBCOMP (id not found) for PUBREL of unknown id"
+		}
+		delete(sl.Sess.InQ2, op.PID)
+		sl.expect(&Expect{Kind: rc.PUBCOMP, PID: op.PID, Rule: "C07/no-response", What: what, Step: s.M.Step, SP: -1})
+	case "ackone":
+		// send the oldest withheld acknowledgement only; keep withholding the rest
+		sl := s.Slots[op.C]
+		if len(sl.heldAcks) > 0 {
+			p := sl.heldAcks[0]
+			sl.heldAcks = sl.heldAcks[1:]
+			s.clientAck(sl, p.Type, p.PacketID)
+		}
 	case "raw":
 		// handled by specialised checks
 	default:
@@ -245,5 +262,26 @@ func (s *Sim) checkMsgExpiry(sl *Slot, msg *Msg, p *rc.Packet, exp *Expect) {
 		a := sl.taintAttrs()
 		a["deferred"] = fmt.Sprint(exp.Out != nil && sl.Sess != nil && sl.Sess.Taint["deferred"])
 		m.flag("C25/expiry-interval-grew", a, "slot %d: %s delivered with Message Expiry Interval %d, effective interval at publish was %d (publisher %d, server max %d)", sl.Idx, msg.ID, pp.Num, e, msg.ExpIvl, s.Cfg.MaxMsgExpiry)
+	}
+}
+
+// progressCheck is the bounded form of "every message queued behind the limit is eventually
+// sent": after a PINGREQ round on a connection that has acknowledged everything it received,
+// no message owed to that session may still be waiting for its first transmission.
+func (s *Sim) progressCheck() {
+	if s.curOp == nil || s.curOp.Kind != "ping" {
+		return
+	}
+	sl := s.Slots[s.curOp.C]
+	if !sl.connected || sl.Hold || len(sl.heldAcks) > 0 || len(sl.inflight) > 0 || sl.Sess == nil {
+		return
+	}
+	s.M.count("progress_points")
+	for _, o := range sl.Sess.Out {
+		if !o.Sent {
+			a := sl.taintAttrs()
+			s.M.flag("C11/progress", a, "slot %d (%s, Receive Maximum %d): %s is still not sent although the client has acknowledged everything it received and pinged", sl.Idx, sl.ClientID, sl.RecvMax, o.M.ID)
+			return
+		}
 	}
 }
